@@ -5,7 +5,7 @@ CONSTANTS
   Orig = {1, 2}
   MaxNest = 2
   Deviations = {}
-  Depth = 8
+  Depth = 7
 SPECIFICATION GenSpec
 INVARIANTS Emit
 CHECK_DEADLOCK FALSE
